@@ -490,7 +490,10 @@ func (bc *BlockChain) insertSidechain(chain types.Blocks) error {
 	// now we can safely handle the side chain with some policies
 	var block *types.Block
 	for _, block = range chain {
-		if !bc.HasBlock(block.Hash(), block.NumberU64()) {
+		// HasBlock only looks for the body, which WriteBlock stores before the header: after a
+		// crash between the two the block must be written again, or the walk back below finds
+		// no header for it.
+		if !bc.HasBlock(block.Hash(), block.NumberU64()) || !bc.HasHeader(block.Hash(), block.NumberU64()) {
 			if err := bc.WriteBlockWithoutState(block); err != nil {
 				return err
 			}
